@@ -22,7 +22,7 @@ Qed.
 
 (* ---------------------------------------------------------------- served => allowed on the file's own URL path *)
 Definition allowed (cf : config) (upath host : list N) (a : addr) : Prop :=
-  access_check [] (deny_in_force cf upath host a) upath (lc cf) = true.
+  access_check (allow cf) (deny_in_force cf upath host a) upath (lc cf) = true.
 
 Theorem served_implies_allowed cf fs path host a file pi :
   decide_path cf fs path host a = O200 file pi ->
@@ -36,7 +36,7 @@ Theorem served_implies_allowed cf fs path host a file pi :
     is_file fs file = true.
 Proof.
   unfold decide_path, allowed.
-  destruct (negb (access_check [] (deny_in_force cf path host a) path (lc cf))) eqn:H1; [discriminate|].
+  destruct (negb (access_check (allow cf) (deny_in_force cf path host a) path (lc cf))) eqn:H1; [discriminate|].
   apply negb_false_iff in H1.
   destruct (match_key_prefix (lc cf) (auth_prefix cf) path) eqn:H2; [discriminate|].
   set (rel := if lc cf then lower path else path).
@@ -58,7 +58,7 @@ Proof.
       * rewrite Hd, orb_false_r in He. exact He.
   - destruct (pathinfo_split fs (S (length rel)) [] rel) as [[f p]|] eqn:Hp; [|discriminate].
     destruct (pathinfo_split_spec _ _ _ _ _ _ Hp) as (Hcat & Hf & _). cbn [rev app] in Hcat.
-    destruct (negb (access_check [] (deny_in_force cf (firstn (length path - length p) path) host a)
+    destruct (negb (access_check (allow cf) (deny_in_force cf (firstn (length path - length p) path) host a)
                                  (firstn (length path - length p) path) (lc cf))) eqn:H3; [discriminate|].
     apply negb_false_iff in H3.
     destruct (match_value_suffix false (excl cf) f) eqn:Hx; [discriminate|].
